@@ -1,7 +1,29 @@
 #!/bin/bash
-# Rebuild the checker from /verif/vmc against /repo's current working tree (offline).
+# Rebuild the checkers from /verif/vmc against /repo's current working tree (offline).
+#   build/vmc   plain build: /repo through a replace directive, nothing injected
+#   build/vmcx  overlay build (tag verif): adds zz_verif_export.go and the verifsync shim package to
+#               package utreexo and swaps mappollard.go's "sync" import for the shim (C12, C16)
 set -eu
 cd /verif/vmc
 export GOFLAGS=-mod=mod GOPROXY=off GOSUMDB=off GOTOOLCHAIN=local
-mkdir -p /verif/build
-go build -o /verif/build/vmc ./cmd/vmc
+mkdir -p /verif/build /verif/vmc/overlay/gen
+what=${1:-all}
+if [ "$what" = all ] || [ "$what" = vmc ]; then
+  go build -o /verif/build/vmc ./cmd/vmc
+fi
+if [ "$what" = all ] || [ "$what" = vmcx ]; then
+  gen=/verif/vmc/overlay/gen
+  sed -e 's#^\t"sync"$#\tsync "github.com/utreexo/utreexo/verifsync"#' /repo/mappollard.go > $gen/mappollard.go
+  if ! grep -q 'utreexo/verifsync' $gen/mappollard.go; then
+    echo "build.sh: could not rewrite the sync import of /repo/mappollard.go" >&2
+    exit 3
+  fi
+  cat > $gen/overlay.json <<JSON
+{"Replace": {
+ "/repo/mappollard.go": "$gen/mappollard.go",
+ "/repo/verifsync/vsync.go": "/verif/vmc/overlay/verifsync/vsync.go",
+ "/repo/zz_verif_export.go": "/verif/vmc/overlay/zz_verif_export.go"
+}}
+JSON
+  go build -tags verif -overlay $gen/overlay.json -o /verif/build/vmcx ./cmd/vmc
+fi
